@@ -10,7 +10,7 @@ SPEC = dict(
     rule='abstract configurations generated from the seed and RENDERED TO YAML TEXT, taken through viper -> mapstructure hooks -> '
          'configuration.Validate: (a) documented forms only (all sensor/fan/curve kinds, every spelling of controlAlgorithm, both step '
          'spellings, nested function curves in shuffled definition order); (b) one of 52 planted deviations per case (every validator rule, '
-         'the four D15 shapes, permission failures), 8x each, then two at once; every subset of the three backend blocks (none, each single, each pair, all three) for a sensor, a curve and a fan entry; every way three sensors are used (by a linear curve, only by a pid curve, only by a pid curve nested in function curves, not at all); cross-kind references: kind-neutral ids (the SAME text as sensor, curve and/or fan id - legal, the validator keeps kinds apart) and references at all four sites (linear.sensor, pid.sensor, function member, fan.curve) naming an object of the wrong kind, the right kind, both or neither; (c) curve graphs with 2..8 nodes: random DAGs, an embedded '
+         'the four D15 shapes, permission failures), 8x each, then two at once; every subset of the three backend blocks (none, each single, each pair, all three) for a sensor, a curve and a fan entry; every way three sensors are used (by a linear curve, only by a pid curve, only by a pid curve nested in function curves, not at all); cross-kind references: kind-neutral ids (the SAME text as sensor, curve and/or fan id - legal, the validator keeps kinds apart) and references at all four sites (linear.sensor, pid.sensor, function member, fan.curve) naming an object of the wrong kind, the right kind, both or neither; empty mandatory strings: file sensor `path: ""` and cmd sensor `exec: ""` (not looked at by the validator: accepted, must still instantiate and run), explicit-empty spellings `id: ""`, `sensor: ""`, `curve: ""`, `curves: [""]`, hwmon fan `platform: ""`; (c) curve graphs with 2..8 nodes: random DAGs, an embedded '
          'cycle of every length 1..8, dangling references; (d) EVERY digraph incl. self-loops on 1..3 nodes (thorough: ..4). Ids are strings that are pairwise distinct but fall into groups differing only in letter case, surrounding blanks or unusual '
          'trailing characters ("c0", "C0", " c0 ", "c0.\u00e4/#"), member lists repeat ids (also consecutively). Every accepted configuration is handed to a '
          'persistent worker process that loads the same file through the real loader, runs the real Validate on its own CurrentConfig and then - from that '
